@@ -158,7 +158,7 @@ def check_case(seq, context, endian, align, res: JobResult, tier="quick"):
     if not L.T:
         return
     for compiled, T in L.T.items():
-        if T.size != size or (T.alignment or 1) != al:
+        if T.size != size or (align and (T.alignment or 1) != al):
             viol("layout:size", f"size/alignment {T.size}/{T.alignment} model {size}/{al}", "compiled" if compiled else "interpreted")
         # unit offsets: the first field of every unit carries the unit's offset
         for f, o in zip(st.fields, offs):
